@@ -76,6 +76,11 @@ def setter_replay(chk, op, n, spec, accept=lambda b: True):
         if v < 2**(8 * n):
             cands.append(v.to_bytes(n, "little").hex())
     cands += [bytes(rng.randrange(256) for _ in range(n)).hex() for _ in range(40)]
+    from sym import ptreplay
+    for a_ in ptreplay.montgomery_structured(1500):
+        cands.append(a_.to_bytes(n, "little").hex())
+        if n == 64:
+            cands.append((a_ + rng.randrange(1, 2**250) * L).to_bytes(n, "little").hex())
     for i in range(n):
         b = bytearray(n)
         b[i] = 0xff
